@@ -99,10 +99,52 @@ def facts(r):
     return out
 
 
+TEXTS: dict = {}
+
+
+def feature_obs(v: Verdict, fscs) -> list:
+    """Every declaration form of Pipeline.tla: its stubs in the package of all forms vs in a package of its own (same names, same paths)."""
+    from checks import c01
+    import features  # noqa: F401
+    if not fscs:
+        return []
+    feats = [(k, sc["feat"]) for k, sc in enumerate(fscs)]
+
+    def style_of(f):
+        if f[0] != "doc":
+            return "PLAINTEXT"
+        return "GOOGLE" if "google" in f[1].lower() else "REST" if "rest" in f[1].lower() else "PLAINTEXT" if f[1] == "PLAINTEXT" else "NUMPYDOC"
+    styles = sorted({style_of(f) for _, f in feats})
+    jobs = [{"src": c01.build(feats, "pipepk"), "opts": Opts(docstyle=st), "timeout": 600} for st in styles]
+    jobs += [{"src": c01.build([(k, f)], "pipepk"), "opts": Opts(docstyle=style_of(f)), "timeout": 120} for k, f in feats]
+    runs = run_many(jobs)
+    packs = dict(zip(styles, runs[:len(styles)]))
+    out = []
+    for (k, f), r in zip(feats, runs[len(styles):]):
+        pr = packs[style_of(f)]
+        if r.exit != "ok" or pr.exit != "ok":
+            v.extra.setdefault("unobservable", []).append({"feature": f, "exits": [pr.exit, r.exit]})
+            continue
+        pre = f"pipepk/f{k:03d}/"
+        a = {rel: t for rel, t in pr.stubs.items() if rel.startswith(pre)}
+        b = {rel: t for rel, t in r.stubs.items() if rel.startswith(pre)}
+        for rel in sorted(set(a) | set(b)):
+            x, y = a.get(rel), b.get(rel)
+            dx, dy = (sha(x) if x is not None else "@absent"), (sha(y) if y is not None else "@absent")
+            o = {"base": f"feature:{f[0]}:{f[1]}", "kind": "remove-all-unrelated", "a": dx, "b": dy, "bagA": dx, "bagB": dy, "headA": "", "headB": ""}
+            if dx != dy:
+                TEXTS[f"feature:{f[0]}:{f[1]}:{rel}"] = {"together": x, "alone": y}
+            out.append({"id": f"feature:{f[0]}:{f[1]}:{rel}", "obs": o})
+    v.extra["feature_modules_compared"] = len(out)
+    return out
+
+
 def main(v: Verdict) -> None:
     scs = generate(v, "Locality", "C18_MC.cfg", min_records=20)
     if not scs:
         return
+    fscs = sorted((sc for sc in scs if sc["base"] == "feature"), key=lambda sc: sc["feat"])
+    scs = [sc for sc in scs if sc["base"] != "feature"]
     jobs, meta = [], []
     for k, sc in enumerate(scs):
         u0 = START_U.get(sc["kind"], 0)
@@ -128,10 +170,14 @@ def main(v: Verdict) -> None:
             x, y = x or none, y or none
             obs.append({"id": f"{sc['base']}:{sc['kind']}:{rel}", "obs": {"base": sc["base"], "kind": sc["kind"], "a": x["bytes"], "b": y["bytes"],
                                                                          "bagA": x["bag"], "bagB": y["bag"], "headA": x["head"], "headB": y["head"]}})
+    obs += feature_obs(v, fscs)
     if not obs:
         v.machinery("nothing observable")
         return
     bad = judge(v, "C18_Trace", obs)
+    for b in bad:
+        if b.get("subject") in TEXTS:
+            b["stubs"] = TEXTS[b["subject"]]
     v.add_bad(bad)
     v.samples = obs[:3]
     v.extra["pairs"] = len(scs)
